@@ -15,12 +15,32 @@
     opt_verify  exec's post-op (-t with -R exec), target list, negative time-outs, pcp operands
     string_to_int = strtoul, errno / trailing test, `(int)` cast;  atoi = `(int) strtol`;
     copy_username's length test.
+    -w words    wcoll_args_process / get_host_rcmd_type as far as they touch the settings of this property:
+                `[rcmd_type:][user@]hosts` prefixes (malformed order, unknown per-target transport => errx;
+                per-target user name: unchecked), list_split's comma/bracket rule
+    module-provided options   their getopt text (`Defaults.modOpts`): known to opt_args, unknown to opt_args_early
+
+  Deliberately OUTSIDE this model, and why they do not bear on C18:
+    * which user / transport a single target finally gets from a `type:` / `user@` prefix (precedence over -l / -R
+      per host): property C09; here only acceptance or refusal of the values.
+    * excluded words (`-x`, `-host`), `^file` and `/regex/` words, WCOLL, module-supplied target lists: they select
+      TARGETS (C02, C10); the only way they reach this property is an empty target list, a refusal the
+      specification admits (`structOk`).
+    * DSHPATH: part of the command (C09).  -z / -Z / -y / -T: undocumented pdcp server/client modes and test
+      hooks, for which opt_verify skips the checks; theorems carry the hypothesis `pcpServer = pcpClient = false`.
+    * what a module's option handler does with its argument: only the option's arity matters for the settings.
 
   Every place where the unchanged code violates the property text has ONE switch in `Fixes`
   (`Fixes.none` = the code in /repo, `Fixes.all` = the proposed repairs, findings/C18.json):
     d4    opt_verify refuses fanout < 1
     d5    string_to_int: strtol, "no digits" test and INT_MIN..INT_MAX range test instead of a silent cast
     atoi  -t / -u are converted by string_to_int (and refused like -f) instead of atoi
+    wuser the remote user given as `user@hosts` in a -w word is length-checked like the argument of -l
+          (unchanged: wcoll_arg_process hands it to rcmd_register_defaults unchecked)
+    early opt_args_early knows the options of the loaded modules (unchanged: it runs before the modules are
+          loaded with the built-in option string only; an option a module provides is unknown to it, so the
+          argument word of such an option is taken for the first operand and, getopt running in POSIXLY_CORRECT
+          mode, the scan stops there: a -M that follows is never seen)
     dopt  opt_args has a `case 'd'` (the documented -d is handled in opt_args_early only; the second pass
           falls into `default:` and prints the usage message: `pdsh -d ...` is always refused)
 -/
@@ -38,10 +58,12 @@ structure Fixes where
   d5   : Bool
   atoi : Bool
   dopt : Bool
+  wuser : Bool
+  early : Bool
   deriving DecidableEq, Repr
 
-def Fixes.none : Fixes := ⟨false, false, false, false⟩
-def Fixes.all  : Fixes := ⟨true, true, true, true⟩
+def Fixes.none : Fixes := ⟨false, false, false, false, false, false⟩
+def Fixes.all  : Fixes := ⟨true, true, true, true, true, true⟩
 
 /-- pdsh / pdcp / rpdcp (argv[0]); pdcp and rpdcp are the PCP personality -/
 inductive Pers where
@@ -58,6 +80,8 @@ structure Defaults where
   loginMax    : Nat          -- sysconf (_SC_LOGIN_NAME_MAX)
   progPath    : Str          -- _find_path (argv[0])
   rcmdModules : List Str     -- the rcmd modules loaded for this personality
+  modOpts     : Str          -- getopt text of the options the initialised modules registered ("" in the shipped
+                             -- build: rsh and exec provide none; "ag:" with the test modules A/B and G)
   deriving Repr
 
 def DFLT_FANOUT : Int := (Gen.DFLT_FANOUT : Int)
@@ -69,6 +93,12 @@ def DSH_ARGS : Str := "Sk".toList
 def PCP_ARGS : Str := "pryzZe:".toList
 
 def optstring (p : Pers) : Str := GEN_ARGS ++ (if p.isPcp then PCP_ARGS else DSH_ARGS)
+
+/-- the option string of opt_args: the built-in one plus what the modules registered (opt_register appends) -/
+def fullString (d : Defaults) (p : Pers) : Str := optstring p ++ d.modOpts
+
+/-- the option string opt_args_early runs with: it is called BEFORE mod_load_modules -/
+def earlyString (fx : Fixes) (d : Defaults) (p : Pers) : Str := if fx.early then fullString d p else optstring p
 
 /-- the part of opt_t this property is about (plus the flags needed to know what main does next) -/
 structure Cfg where
@@ -221,6 +251,7 @@ inductive Case where
   | usage                -- h, and `default:` for characters no module handles (c I)
   | rcmd | fanout | ctmo | utmo | ruser | path
   | flag (f : Flag)
+  | wcoll                -- 'w': wcoll_args_process
   | dbg                  -- 'd': there is no `case 'd'`
   deriving DecidableEq, Repr
 
@@ -232,7 +263,7 @@ def caseOf (ch : Char) : Case :=
   | 'R' => .rcmd
   | 'S' => .flag .S
   | 'f' => .fanout
-  | 'w' => .flag .w
+  | 'w' => .wcoll
   | 'x' => .keep
   | 'q' => .flag .q
   | 't' => .ctmo
@@ -254,6 +285,73 @@ def caseOf (ch : Char) : Case :=
   | 'd' => .dbg
   | _ => .usage             -- 'c', 'I': in the option string, handled by no module
 
+/-! #### -w words: `[rcmd_type:][user@]hosts` (wcoll_args_process, get_host_rcmd_type) -/
+
+/-- `list_split (",", args)`: commas inside brackets do not separate, empty pieces are dropped -/
+def splitWordsAux (cur : Str) (level : Int) : Str → List Str
+  | [] => if cur = [] then [] else [cur.reverse]
+  | c :: s =>
+    if c = ',' ∧ level = 0 then (if cur = [] then splitWordsAux [] 0 s else cur.reverse :: splitWordsAux [] 0 s)
+    else splitWordsAux (c :: cur) (if c = '[' then level + 1 else if c = ']' then level - 1 else level) s
+
+def splitWords (s : Str) : List Str := splitWordsAux [] 0 s
+
+def isBlank (c : Char) : Bool := CInt.isSpace c
+
+/-- `[rcmd_type:][user@]hosts` -/
+structure HostSpec where
+  ty    : Option Str
+  user  : Option Str
+  hosts : Str
+  deriving DecidableEq, Repr
+
+/-- get_host_rcmd_type: `none` = errx ("not of form [rcmd_type:][user@]hosts": the first ':' after the first '@') -/
+def parseHostSpec (p : Str) : Option HostSpec :=
+  let ip := p.findIdx? (· = ':')
+  let iq := p.findIdx? (· = '@')
+  let bad := match ip, iq with | some i, some j => decide (i > j) | _, _ => false
+  if bad then none
+  else
+    -- a single ':' (not "::") ends the transport name
+    let ty : Option Str := match ip with
+      | some i => if (p.drop (i + 1)).head? = some ':' then none else some (p.take i)
+      | none => none
+    let rest := match ty, ip with | some _, some i => p.drop (i + 1) | _, _ => p
+    some { ty := ty, user := (rest.findIdx? (· = '@')).map rest.take,
+           hosts := match rest.findIdx? (· = '@') with | some j => rest.drop (j + 1) | none => rest }
+
+/-- words that carry no prefixes: excluded (`-...`), `^file`, `/regex/` (outside this model's domain) -/
+def specialWord (w : Str) : Option Bool :=
+  match w with
+  | '-' :: _ => some false
+  | _ =>
+    match w.dropWhile isBlank with
+    | '^' :: _ => some true
+    | '/' :: _ => some false
+    | _ => none
+
+/-- one word of a -w argument: `none` = errx (malformed prefix, unknown per-host transport, repaired: over-long
+    user), `some b` = accepted, b = it names targets -/
+def wcollWord (fx : Fixes) (d : Defaults) (w : Str) : Option Bool :=
+  match specialWord w with
+  | some b => some b
+  | none =>
+    match parseHostSpec (w.dropWhile isBlank) with
+    | none => none
+    | some hs =>
+      if (match hs.ty with | some t => !(d.rcmdModules.contains t) | none => false) then none
+      else if fx.wuser && (match hs.user with | some u => decide (u.length > d.loginMax) | none => false) then none
+      else some (hs.hosts ≠ [])
+
+/-- a whole -w argument, word by word, stopping at the first errx -/
+def wcollArg (fx : Fixes) (d : Defaults) (a : Str) : Option Bool :=
+  (splitWords a).foldl (fun acc w => match acc with
+    | none => none
+    | some b => (wcollWord fx d w).map (b || ·)) (some false)
+
+/-- an option character registered by a module -/
+def modOpt (d : Defaults) (ch : Char) : Bool := ch ≠ ':' && d.modOpts.contains ch
+
 /-- the `switch (c)` of opt_args -/
 def action (fx : Fixes) (d : Defaults) : Tok → Act
   | .bad => .exit 1                                    -- default: mod_process_opt < 0 -> _usage -> exit (1)
@@ -262,7 +360,7 @@ def action (fx : Fixes) (d : Defaults) : Tok → Act
     match caseOf ch with
     | .keep => .keep
     | .exit0 => .exit 0
-    | .usage => .exit 1
+    | .usage => if modOpt d ch then .keep else .exit 1   -- default: mod_process_opt: a module's handler, or _usage
     | .rcmd => .rcmd a
     | .fanout => (stringToInt fx a).elim (.exit 1) .fanout          -- errx ("Invalid fanout")
     | .ctmo => (timeoutArg fx a).elim (.exit 1) .ctmo
@@ -270,6 +368,7 @@ def action (fx : Fixes) (d : Defaults) : Tok → Act
     | .ruser => if a.length > d.loginMax then .exit 1 else .ruser a   -- copy_username: errx
     | .path => .path a
     | .flag f => .flag f
+    | .wcoll => (wcollArg fx d a).elim (.exit 1) fun named => if named then .flag .w else .keep
     | .dbg => if fx.dopt then .keep else .exit 1       -- default: -> _usage
 
 def setFlag (c : Cfg) : Flag → Cfg
@@ -333,8 +432,8 @@ def effective (fx : Fixes) (d : Defaults) (p : Pers) (env : Env) (argv : List St
   match optEnv fx p env (optDefault d) with
   | .error n => .exit n
   | .ok c1 =>
-    let g := getopt (optstring p) argv
-    let c2 := optArgsEarly c1 g.1
+    let g := getopt (fullString d p) argv
+    let c2 := optArgsEarly c1 (getopt (earlyString fx d p) argv).1
     match applyToks fx d p c2 g.1 with
     | .error n => .exit n
     | .ok c3 =>
